@@ -245,25 +245,42 @@ ServiceIdentityRules(s) ==
    Rl("service", <<>>, "prefix", "read"), Rl("node", <<>>, "prefix", "read")}
 NodeIdentityRules(n) == {Rl("node", n, "exact", "write"), Rl("service", <<>>, "prefix", "read")}
 
-(* env = [pol : id -> set of rules, roles : id -> [pols, svc, node], tok : id -> [pols, roles, svc, node]] *)
+(* env = [pol   : id -> set of rules,                                                              *)
+(*        roles : id -> [pols, svc, node, tsvc, tnode],                                             *)
+(*        tok   : id -> [pols, roles, svc, node, tsvc, tnode]]                                      *)
+(*   svc / node   service / node identities                                                         *)
+(*   tsvc / tnode templated policies builtin/service {name} / builtin/node {name} (structs.         *)
+(*                ACLTemplatedPolicy). They render the SAME rules text as the identity of that name, *)
+(*                so a token that has both carries the same synthetic policy twice - which, by the   *)
+(*                property, changes nothing: its own rule SET is the same.                           *)
+Fld(rec, f) == IF f \in DOMAIN rec THEN rec[f] ELSE {}      \* replays recorded before tsvc/tnode existed
 \* ACLResolver.resolvePoliciesForIdentity: the token's links plus the links of its roles
-TokPols(env, t) == env.tok[t].pols \cup UNION {env.roles[r].pols : r \in env.tok[t].roles}
-TokSvc(env, t)  == env.tok[t].svc \cup UNION {env.roles[r].svc : r \in env.tok[t].roles}
-TokNode(env, t) == env.tok[t].node \cup UNION {env.roles[r].node : r \in env.tok[t].roles}
-\* the token's OWN rules: nothing but its policies, roles and identities
+TokLinks(env, t, f) == Fld(env.tok[t], f) \cup UNION {Fld(env.roles[r], f) : r \in env.tok[t].roles}
+TokPols(env, t)  == TokLinks(env, t, "pols")
+TokSvc(env, t)   == TokLinks(env, t, "svc")
+TokNode(env, t)  == TokLinks(env, t, "node")
+TokTSvc(env, t)  == TokLinks(env, t, "tsvc")
+TokTNode(env, t) == TokLinks(env, t, "tnode")
+\* the token's OWN rules: nothing but its policies, roles, identities and templated policies
 OwnRules(env, t) ==
   UNION ({env.pol[p] : p \in TokPols(env, t) \cap DOMAIN env.pol}   \* a dangling link contributes nothing
-         \cup {ServiceIdentityRules(s) : s \in TokSvc(env, t)}
-         \cup {NodeIdentityRules(n) : n \in TokNode(env, t)})
+         \cup {ServiceIdentityRules(s) : s \in TokSvc(env, t) \cup TokTSvc(env, t)}
+         \cup {NodeIdentityRules(n) : n \in TokNode(env, t) \cup TokTNode(env, t)})
 
 (* caches (agent/structs/acl_cache.go):                                                          *)
 (*   parsed : content key -> set of rules     key = <<policy id, rules>> (content hash incl. name) *)
 (*   authz  : set of <<policy id, modify index>> -> merged rule set of the compiled authorizer     *)
-\* policy list in the order Compile sees it: real policies sorted by id, then synthetic ones
+\* policy list in the order Compile sees it: real policies sorted by id, then the synthetic policies of the
+\* service identities, node identities and templated policies - every KIND de-duplicated on its own, so the
+\* synthetic policy of name X (same id: the id is derived from the rules text) can occur TWICE in the list.
+\* The authorizer-cache key below is the SET of <<id, modify index>>: a cache may identify lists only if they
+\* have the same rule set (the real key hashes the sequence, which is finer and equally correct).
+SynSvc(s)  == [id |-> <<"svc", s>>, ver |-> 0, rules |-> ServiceIdentityRules(s)]
+SynNode(n) == [id |-> <<"node", n>>, ver |-> 0, rules |-> NodeIdentityRules(n)]
 PolicyList(env, ver, t) ==
   LET real == SetToSortSeq(TokPols(env, t) \cap DOMAIN env.pol, LAMBDA a, b : a < b)
-      syn  == SetToSeq({[id |-> <<"svc", s>>, ver |-> 0, rules |-> ServiceIdentityRules(s)] : s \in TokSvc(env, t)}
-                       \cup {[id |-> <<"node", n>>, ver |-> 0, rules |-> NodeIdentityRules(n)] : n \in TokNode(env, t)})
+      syn  ==    SetToSeq({SynSvc(s) : s \in TokSvc(env, t)}) \o SetToSeq({SynNode(n) : n \in TokNode(env, t)})
+              \o SetToSeq({SynSvc(s) : s \in TokTSvc(env, t)} \cup {SynNode(n) : n \in TokTNode(env, t)})
   IN [i \in 1..Len(real) |-> [id |-> <<"pol", <<real[i]>>>>, ver |-> ver[real[i]], rules |-> env.pol[real[i]]]] \o syn
 
 Upd(f, k, v) == [x \in DOMAIN f \cup {k} |-> IF x = k THEN v ELSE f[x]]
